@@ -104,6 +104,22 @@ def run(ctx) -> None:
     bw_arr = repo.method(MOD, "BlochWaves", "_calculate_array")
     bw_sm = repo.method(MOD, "BlochWaves", "calculate_scattering_matrix")
 
+    # ---------------- R-TWIN
+    for cls, meth in (("StructureFactor", "build"), ("BlochWaves", "calculate_structure_matrix"),
+                      ("BlochWaves", "_calculate_array")):
+        f = repo.method(MOD, cls, meth)
+        sites = list(twins.find_twin_sites(f))
+        ctx.require(len(sites) >= 1, f"{f.qualname}: no lazy/eager branch found")
+        compared, untwinned = twins.check_function(ctx, f, "R-TWIN")
+        if compared == 0:
+            wrapped = [norm_text(c.args[0]) for _, lazy_arm, _ in sites for s in lazy_arm for c in ast.walk(s)
+                       if isinstance(c, ast.Call) and last_attr(c) == "map_blocks" and c.args]
+            if not wrapped:
+                raise AnalysisError(f"{f.qualname}: the lazy arm no longer uses map_blocks")
+            ctx.violation("R-TWIN", f"{f.qualname}:{wrapped[0]}", f.where,
+                          f"the lazy arm maps `{wrapped[0]}` over the blocks but the eager arm never calls "
+                          f"`{wrapped[0]}`: the two arms compute different things", key_detail="callee")
+
     # ---------------- R-TERM / R-UNITARY
     scalars = []
     # eigen path
@@ -182,22 +198,6 @@ def run(ctx) -> None:
                   f"scalar {_k(rest)} is imaginary",
                   f"the scalar {_k(rest)} multiplying the Hermitian spectrum is not purely imaginary: exp(...) is not "
                   "unitary and the diffracted intensities do not sum to one", key_detail="imag")
-
-    # ---------------- R-TWIN
-    for cls, meth in (("StructureFactor", "build"), ("BlochWaves", "calculate_structure_matrix"),
-                      ("BlochWaves", "_calculate_array")):
-        f = repo.method(MOD, cls, meth)
-        sites = list(twins.find_twin_sites(f))
-        ctx.require(len(sites) >= 1, f"{f.qualname}: no lazy/eager branch found")
-        compared, untwinned = twins.check_function(ctx, f, "R-TWIN")
-        if compared == 0:
-            wrapped = [norm_text(c.args[0]) for _, lazy_arm, _ in sites for s in lazy_arm for c in ast.walk(s)
-                       if isinstance(c, ast.Call) and last_attr(c) == "map_blocks" and c.args]
-            if not wrapped:
-                raise AnalysisError(f"{f.qualname}: the lazy arm no longer uses map_blocks")
-            ctx.violation("R-TWIN", f"{f.qualname}:{wrapped[0]}", f.where,
-                          f"the lazy arm maps `{wrapped[0]}` over the blocks but the eager arm never calls "
-                          f"`{wrapped[0]}`: the two arms compute different things", key_detail="callee")
 
     # ---------------- R-EIGVEC
     muts = []
